@@ -64,34 +64,34 @@ pub static PLANS: &[PropPlan] = &[PropPlan {
     assumptions: &[
         "documents have no duplicate keys (the reference is a string-keyed map); capacity and member order of promoted objects are never compared",
         "documented panics (index out of range, wrong kind) are the accepted way to reject an operation",
-        "array::IntoIter::{as_slice, as_mut_slice} are left out: undocumented and visibly not vec::IntoIter semantics, so there is no stated reference",
+        "every array/object operation is entered either through as_array_mut()/as_object_mut() (which promotes a parsed container first) or through a typed Array/Object handle taken out of its place (no promotion yet); array::IntoIter::{as_slice, as_mut_slice, AsRef, AsMut} are held to vec::IntoIter (the items not yet yielded)",
     ],
     real_vs_stub: "real: sonic-rs DOM (node.rs, array.rs, object.rs, index.rs, from.rs, partial_eq.rs, macros), parser, serializer; simulated: heap bookkeeping only (single simulated caller; threads are C16's business); absent: clock, network, disk",
-    probes: &["dom_steps", "dom_mutations", "dom_rejected_ops", "dom_panics_expected", "dom_clones", "dom_takes", "dom_pool_compares", "dom_parsed_roots", "dom_built_values", "dom_cross_assign"],
+    probes: &["dom_typed_handle_entries", "dom_steps", "dom_mutations", "dom_rejected_ops", "dom_panics_expected", "dom_clones", "dom_takes", "dom_pool_compares", "dom_parsed_roots", "dom_built_values", "dom_cross_assign"],
 }, PropPlan {
     prop: "C16",
     level: "exploration",
     sims: &[SimPlan { sim: "arena", quick_runs: 100_000, thorough_runs: 2_000_000 }],
-    rule: "each run draws 1-3 simulated threads (real OS threads, real thread-local node buffer each) and, per thread, 2-40 operations over a bag of live (Value, model) pairs: parse by 7 routes (from_str, from_slice, Deserializer over Bytes/FastStr, value inside a struct, use_rawnumber, element of Vec<Value>), three values through one deserializer, streams (open / next / drop before or after their values), clone root / subtree, take a child out, insert a value into another document, mutate, read-and-compare, send to another thread, receive, drop; the scheduler may switch before every arena reference-count operation and between operations; final drops happen in a drawn order. Non-trivial = a context switch, cross-thread send, promotion or mutation happened; distinct = distinct hash of the rendered trace",
+    rule: "each run draws 1-3 simulated threads (real OS threads, real thread-local node buffer each) and, per thread, 2-40 operations over a bag of live (Value, model) pairs: parse by 10 routes (from_str, from_slice, Deserializer over Bytes/FastStr, value inside a struct, use_rawnumber alone / inside a struct / inside a Vec, element of Vec<Value>, second value of a deserializer), malformed documents through every deserializer now and then, repeated document texts, hand-off (parse, give away untouched, let others run, parse the same text again), three values through one deserializer, streams (open / next / drop before or after their values), clone root / subtree, take a child out, insert a value into another document, mutate, read-and-compare, send to another thread, receive, drop; the scheduler may switch before every arena reference-count operation and between operations; final drops happen in a drawn order. Non-trivial = a context switch, cross-thread send, promotion or mutation happened; distinct = distinct hash of the rendered trace",
     assumptions: &[
-        "std::sync::Arc and bumpalo are trusted; the baton serialises execution, so weak-memory races inside Arc use are out of reach (sonic-rs adds no atomics of its own on this path)",
-        "Miri cannot execute the arena DOM (pointer provenance is lost in visit_root), so this property has no abstract-machine engine; memory errors are observed through the simulated heap: ledger (double/invalid/wrong-layout free), 0xDE poison + quarantine (use after free reads poison, write after free detected), tail canaries, leak check, and the live-arena counter fed by hook events",
+        "std::sync::Arc and bumpalo are trusted; the baton of the native engine serialises execution, so data races are out of its reach: they are the business of the Miri engine of this check (free-running threads, Miri's race detector)",
+        "native engine: memory errors are observed through the simulated heap: ledger (double/invalid/wrong-layout free), 0xDE poison + quarantine (use after free reads poison, write after free detected), tail canaries on every block, leak check, the live-arena counter fed by hook events; one run in three uses the heap's reuse mode (freed blocks of the same size are handed out again, randomised) so that address-reuse (ABA) defects can show",
         "documents are small (<= 20 nodes) except the rare 400 KB document that drives the node buffer's heap fallback",
     ],
     real_vs_stub: "real: sonic-rs parser, DOM, arena ref-counting, thread-local node buffer, serde glue, std Arc, bumpalo; simulated: thread scheduling (baton over real OS threads), mailboxes between threads, heap bookkeeping; absent: clock, network, disk",
-    probes: &["context_switches", "arena_created", "arena_dropped", "arena_freed_on_foreign_thread", "tls_buffer_reused", "tls_heap_fallback", "value_sent_to_thread", "value_dropped_foreign", "to_mut_promotion", "cross_arena_insert", "stream_values", "deser_dropped_before_values", "dom_rejected_ops", "dom_takes", "dom_clones"],
+    probes: &["context_switches", "heap_reuse_runs", "heap_blocks_reused", "arena_handoffs", "arena_created", "arena_dropped", "arena_freed_on_foreign_thread", "tls_buffer_reused", "tls_heap_fallback", "value_sent_to_thread", "value_dropped_foreign", "to_mut_promotion", "cross_arena_insert", "stream_values", "deser_dropped_before_values", "dom_rejected_ops", "dom_takes", "dom_clones"],
 }, PropPlan {
     prop: "C18",
     level: "exploration",
     sims: &[SimPlan { sim: "cache", quick_runs: 250_000, thorough_runs: 3_000_000 }],
-    rule: "each run draws (from one seed) a scenario: a shared LazyValue (escaped string; routes get/serde/iterator) or OwnedLazyValue (document; routes serde/From<LazyValue>/to_lazyvalue), 2-3 thread programs of 1-4 calls, the interleaving at every atomic operation of the cache field, and spurious weak-CAS failures; non-trivial = at least one context switch or injected failure happened; distinct = distinct hash of the rendered trace (scenario, programs, switches, faults, race outcomes)",
+    rule: "each run draws (from one seed) a scenario: a shared LazyValue (escaped string; routes get/serde/iterator) or OwnedLazyValue (document; routes serde/From<LazyValue>/to_lazyvalue), 2-3 thread programs of 1-4 calls, the interleaving before every atomic operation of the cache field and behind every compare-exchange, and spurious weak-CAS failures; non-trivial = at least one context switch or injected failure happened; distinct = distinct hash of the rendered trace (scenario, programs, switches, faults, race outcomes)",
     assumptions: &[
         "the baton scheduler serialises threads, so weak-memory effects (missing acquire/release) are invisible to this engine; they are covered by the Miri engine of the same check",
         "std::sync::Arc, the system allocator and faststr are trusted",
         "documents are well-formed and small (<= 40 byte strings, <= 10 nodes)",
     ],
     real_vs_stub: "real: all of sonic-rs (parser, lazy values, serializer), sonic-number, sonic-simd, std Arc/String; simulated: thread scheduling (baton over real OS threads), outcome of compare_exchange_weak (shim, cfg sonic_rs_verif), heap bookkeeping (ledger over System allocator); absent: clock, network, disk (the library has none)",
-    probes: &["context_switches", "fault_spurious_cas", "cas_lost_real_race", "cas_won", "load_hit_published", "lazy_clones", "lazy_cache_scen", "owned_cache_scen"],
+    probes: &["context_switches", "post_cas_yields", "fault_spurious_cas", "cas_lost_real_race", "cas_won", "load_hit_published", "lazy_clones", "lazy_cache_scen", "owned_cache_scen"],
 }];
 
 fn arg(args: &[String], name: &str) -> Option<String> {
